@@ -1,0 +1,73 @@
+//go:build verif
+
+package metric
+
+// Contracts checked by /verif (govc). Comment-only: no executable code.
+// What a scrape emits (C16). float64(x) is the uninterpreted conversion f64(x); totals are folds of fadd.
+
+//@ iface couchbase.Observer.GetPersistSeqNo
+//@ params recv
+//@ modifies nothing
+
+//@ iface stream.Stream.GetMetric
+//@ params recv
+//@ ensures result0 != nil
+//@ modifies nothing
+
+//@ iface stream.VBucketDiscovery.GetMetric
+//@ params recv
+//@ ensures result != nil
+//@ modifies nothing
+
+//@ iface stream.Stream.GetCheckpointMetric
+//@ params recv
+//@ ensures result != nil
+//@ modifies nothing
+
+//@ iface couchbase.Observer.GetMetrics
+//@ params recv
+//@ ensures result != nil
+//@ modifies nothing
+
+//@ func (*metricCollector).Collect$1
+//@ props C16
+//@ requires s != nil && observer != nil && ch != nil
+//@ let M = "prometheus.MustNewConstMetric"
+//@ let met = dret(couchbase.Observer.GetMetrics, 0, 0)
+//@ check.shape[C16] result == true && dcalls("prometheus.MustNewConstMetric") == 4 && sends(ch) == 4
+//@ check.persist[C16] darg("prometheus.MustNewConstMetric", 0, desc) == s.persistSeqNo && darg("prometheus.MustNewConstMetric", 0, value) == f64(dret(couchbase.Observer.GetPersistSeqNo, 0, 0)) && darg("prometheus.MustNewConstMetric", 0, labelValues)[0] == itoa(vbID)
+//@ check.counters[C16] darg("prometheus.MustNewConstMetric", 1, desc) == s.mutation && darg("prometheus.MustNewConstMetric", 1, value) == met.TotalMutations && darg("prometheus.MustNewConstMetric", 2, desc) == s.deletion && darg("prometheus.MustNewConstMetric", 2, value) == met.TotalDeletions && darg("prometheus.MustNewConstMetric", 3, desc) == s.expiration && darg("prometheus.MustNewConstMetric", 3, value) == met.TotalExpirations
+//@ check.labels[C16] darg("prometheus.MustNewConstMetric", 1, labelValues)[0] == itoa(vbID) && darg("prometheus.MustNewConstMetric", 2, labelValues)[0] == itoa(vbID) && darg("prometheus.MustNewConstMetric", 3, labelValues)[0] == itoa(vbID)
+//@ check.same_observer[C16] darg(couchbase.Observer.GetMetrics, 0, recv) == observer && darg(couchbase.Observer.GetPersistSeqNo, 0, recv) == observer
+//@ modifies chan(ch), calls("prometheus.MustNewConstMetric"), calls(couchbase.Observer.GetPersistSeqNo), calls(couchbase.Observer.GetMetrics)
+
+//@ func (*metricCollector).Collect$2
+//@ props C16
+//@ requires s != nil && offset != nil && offset.SnapshotMarker != nil && ch != nil && (err == nil ==> seqNoMap != nil)
+//@ let high = ite(has(seqNoMap, vbID), seqNoMap[vbID], 0)
+//@ let lagv = ite(high > offset.SeqNo, f64(high - offset.SeqNo), 0)
+//@ check.position[C16] result == true && darg("prometheus.MustNewConstMetric", 0, desc) == s.currentSeqNo && darg("prometheus.MustNewConstMetric", 0, value) == f64(offset.SeqNo) && darg("prometheus.MustNewConstMetric", 0, labelValues)[0] == itoa(vbID)
+//@ check.snapshot[C16] darg("prometheus.MustNewConstMetric", 1, desc) == s.startSeqNo && darg("prometheus.MustNewConstMetric", 1, value) == f64(offset.StartSeqNo) && darg("prometheus.MustNewConstMetric", 1, labelValues)[0] == itoa(vbID) && darg("prometheus.MustNewConstMetric", 2, desc) == s.endSeqNo && darg("prometheus.MustNewConstMetric", 2, value) == f64(offset.EndSeqNo) && darg("prometheus.MustNewConstMetric", 2, labelValues)[0] == itoa(vbID)
+//@ check.lag[C16] err == nil ==> dcalls("prometheus.MustNewConstMetric") == 4 && darg("prometheus.MustNewConstMetric", 3, desc) == s.lag && darg("prometheus.MustNewConstMetric", 3, value) == lagv && darg("prometheus.MustNewConstMetric", 3, labelValues)[0] == itoa(vbID)
+//@ check.total[C16] err == nil ==> totalLag == fadd(old(totalLag), lagv)
+//@ check.noseqnos[C16] err != nil ==> dcalls("prometheus.MustNewConstMetric") == 3 && dcalls("prometheus.NewInvalidMetric") == 1 && totalLag == old(totalLag)
+//@ modifies chan(ch), calls("prometheus.MustNewConstMetric"), calls("prometheus.NewInvalidMetric"), cell(fvcell("totalLag"))
+
+//@ func (*metricCollector).Collect
+//@ props C16
+//@ requires s != nil && s.stream != nil && typeis(s.stream, "*stream.stream") && s.client != nil && s.vBucketDiscovery != nil && ch != nil
+//@ requires distinct(s.mutation, s.deletion, s.expiration, s.agentQueueCurrent, s.agentQueueMax, s.currentSeqNo, s.startSeqNo, s.endSeqNo, s.persistSeqNo, s.processLatency, s.dcpLatency, s.rebalance, s.lag, s.totalLag, s.activeStream, s.totalMembers, s.memberNumber, s.membershipType, s.vBucketCount, s.vBucketRangeStart, s.vBucketRangeEnd, s.offsetWrite, s.offsetWriteLatency)
+//@ let closed = dret(stream.Stream.GetObservers, 0, 0) == nil
+//@ loop $1
+//@   modifies chan(ch), calls("prometheus.MustNewConstMetric"), calls(couchbase.Observer.GetPersistSeqNo), calls(couchbase.Observer.GetMetrics)
+//@ loop $2
+//@   modifies chan(ch), calls("prometheus.MustNewConstMetric"), calls("prometheus.NewInvalidMetric")
+//@ loop 1
+//@   modifies chan(ch), calls("prometheus.MustNewConstMetric")
+//@ check.closed_is_quiet[C16] closed ==> sends(ch) == 0 && dcalls(couchbase.Client.GetVBucketSeqNos) == 0 && dcalls("wrapper.(*ConcurrentSwissMap).Range") == 0
+//@ check.sweeps[C16] !closed ==> dcalls("wrapper.(*ConcurrentSwissMap).Range") == 2 && isclosure(darg("wrapper.(*ConcurrentSwissMap).Range", 0, f), "metric.(*metricCollector).Collect$1") && darg("wrapper.(*ConcurrentSwissMap).Range", 0, m) == dret(stream.Stream.GetObservers, 0, 0) && isclosure(darg("wrapper.(*ConcurrentSwissMap).Range", 1, f), "metric.(*metricCollector).Collect$2") && darg("wrapper.(*ConcurrentSwissMap).Range", 1, m) == dret(stream.Stream.GetOffsets, 0, 0)
+//@ check.stream_state[C16] !closed ==> argat("prometheus.MustNewConstMetric", lastcall("prometheus.MustNewConstMetric", desc, s.activeStream), desc) == s.activeStream && argat("prometheus.MustNewConstMetric", lastcall("prometheus.MustNewConstMetric", desc, s.activeStream), value) == f64(dret(stream.Stream.GetMetric, 0, 1)) && lastcall("prometheus.MustNewConstMetric", desc, s.activeStream) >= old(ncalls("prometheus.MustNewConstMetric")) && lastcall("prometheus.MustNewConstMetric", desc, s.activeStream) < ncalls("prometheus.MustNewConstMetric") && argat("prometheus.MustNewConstMetric", lastcall("prometheus.MustNewConstMetric", desc, s.rebalance), desc) == s.rebalance && argat("prometheus.MustNewConstMetric", lastcall("prometheus.MustNewConstMetric", desc, s.rebalance), value) == f64(dret(stream.Stream.GetMetric, 0, 0).Rebalance) && lastcall("prometheus.MustNewConstMetric", desc, s.rebalance) >= old(ncalls("prometheus.MustNewConstMetric")) && lastcall("prometheus.MustNewConstMetric", desc, s.rebalance) < ncalls("prometheus.MustNewConstMetric")
+//@ check.group_shape[C16] !closed ==> argat("prometheus.MustNewConstMetric", lastcall("prometheus.MustNewConstMetric", desc, s.totalMembers), desc) == s.totalMembers && argat("prometheus.MustNewConstMetric", lastcall("prometheus.MustNewConstMetric", desc, s.totalMembers), value) == f64(dret(stream.VBucketDiscovery.GetMetric, 0, 0).TotalMembers) && lastcall("prometheus.MustNewConstMetric", desc, s.totalMembers) >= old(ncalls("prometheus.MustNewConstMetric")) && lastcall("prometheus.MustNewConstMetric", desc, s.totalMembers) < ncalls("prometheus.MustNewConstMetric") && argat("prometheus.MustNewConstMetric", lastcall("prometheus.MustNewConstMetric", desc, s.memberNumber), desc) == s.memberNumber && argat("prometheus.MustNewConstMetric", lastcall("prometheus.MustNewConstMetric", desc, s.memberNumber), value) == f64(dret(stream.VBucketDiscovery.GetMetric, 0, 0).MemberNumber) && lastcall("prometheus.MustNewConstMetric", desc, s.memberNumber) >= old(ncalls("prometheus.MustNewConstMetric")) && lastcall("prometheus.MustNewConstMetric", desc, s.memberNumber) < ncalls("prometheus.MustNewConstMetric") && argat("prometheus.MustNewConstMetric", lastcall("prometheus.MustNewConstMetric", desc, s.vBucketRangeStart), desc) == s.vBucketRangeStart && argat("prometheus.MustNewConstMetric", lastcall("prometheus.MustNewConstMetric", desc, s.vBucketRangeStart), value) == f64(dret(stream.VBucketDiscovery.GetMetric, 0, 0).VBucketRangeStart) && lastcall("prometheus.MustNewConstMetric", desc, s.vBucketRangeStart) >= old(ncalls("prometheus.MustNewConstMetric")) && lastcall("prometheus.MustNewConstMetric", desc, s.vBucketRangeStart) < ncalls("prometheus.MustNewConstMetric") && argat("prometheus.MustNewConstMetric", lastcall("prometheus.MustNewConstMetric", desc, s.vBucketRangeEnd), desc) == s.vBucketRangeEnd && argat("prometheus.MustNewConstMetric", lastcall("prometheus.MustNewConstMetric", desc, s.vBucketRangeEnd), value) == f64(dret(stream.VBucketDiscovery.GetMetric, 0, 0).VBucketRangeEnd) && lastcall("prometheus.MustNewConstMetric", desc, s.vBucketRangeEnd) >= old(ncalls("prometheus.MustNewConstMetric")) && lastcall("prometheus.MustNewConstMetric", desc, s.vBucketRangeEnd) < ncalls("prometheus.MustNewConstMetric") && argat("prometheus.MustNewConstMetric", lastcall("prometheus.MustNewConstMetric", desc, s.vBucketCount), desc) == s.vBucketCount && argat("prometheus.MustNewConstMetric", lastcall("prometheus.MustNewConstMetric", desc, s.vBucketCount), value) == f64(dret(stream.VBucketDiscovery.GetMetric, 0, 0).VBucketCount) && lastcall("prometheus.MustNewConstMetric", desc, s.vBucketCount) >= old(ncalls("prometheus.MustNewConstMetric")) && lastcall("prometheus.MustNewConstMetric", desc, s.vBucketCount) < ncalls("prometheus.MustNewConstMetric")
+//@ check.total_lag[C16] !closed ==> argat("prometheus.MustNewConstMetric", lastcall("prometheus.MustNewConstMetric", desc, s.totalLag), desc) == s.totalLag && argat("prometheus.MustNewConstMetric", lastcall("prometheus.MustNewConstMetric", desc, s.totalLag), value) == totalLag && lastcall("prometheus.MustNewConstMetric", desc, s.totalLag) >= old(ncalls("prometheus.MustNewConstMetric")) && lastcall("prometheus.MustNewConstMetric", desc, s.totalLag) < ncalls("prometheus.MustNewConstMetric")
+//@ check.tail[C16] !closed ==> dcalls(stream.Stream.GetMetric) == 1 && dcalls(stream.VBucketDiscovery.GetMetric) == 1 && dcalls(stream.Stream.GetCheckpointMetric) == 1
+//@ modifies chan(ch), calls("prometheus.MustNewConstMetric"), calls("prometheus.NewInvalidMetric"), calls(couchbase.Observer.GetPersistSeqNo), calls(couchbase.Observer.GetMetrics), calls(couchbase.Client.GetVBucketSeqNos), calls(couchbase.Client.GetAgentQueues), calls(stream.Stream.GetObservers), calls(stream.Stream.GetOffsets), calls(stream.Stream.GetMetric), calls(stream.Stream.GetCheckpointMetric), calls(stream.VBucketDiscovery.GetMetric), calls("wrapper.(*ConcurrentSwissMap).Range")
